@@ -32,6 +32,13 @@ fn offset_class(day: i64, nod: u64, off: i32) -> &'static str {
 
 /// op: 0..=9 setters (with value v), 10..=18 clear_until_<unit>
 fn case_dt(day: i64, nod: u64, off: i32, op: usize, v: i64, acc: &mut Acc) {
+    case_dt_inner(day, nod, off, op, v, acc);
+    if crate::props::anchor::hash(&[day as u64, nod, off as u64, op as u64, v as u64]) % 8 == 0 {
+        crate::props::anchor::values(acc, "set/clear (purity probe)", &|| json!({"kind": "dt", "day": day, "nod": nod.to_string(), "off": off, "op": op, "v": v}));
+    }
+}
+
+fn case_dt_inner(day: i64, nod: u64, off: i32, op: usize, v: i64, acc: &mut Acc) {
     let inst = ins::join(day, nod);
     let local = inst + off as i128 * ins::NS;
     if near_edge(local) || near_edge(inst) {
